@@ -619,3 +619,47 @@ def c09h(ctx):
         if o.construct.split(':')[-1] in ('temp-name', 'excl-create', 'rename-direction', 'rename'):
             (ctx.ok if o.status == 'ok' else ctx.bad)('%s:%s' % (o.rule, o.construct), o.msg, o.where)
     ctx.stats['functions'] |= sub.stats['functions']
+
+
+PATH_OPTIONS = {'cache.base_dir', 'cache.lock_dir', 'cache.tile_lock_dir', 'cache_dir', 'mapserver.working_dir', 'mapserver.binary', 'http.ssl_ca_certs'}
+
+
+@rule('C09.i', floor=8)
+def c09i(ctx):
+    """relative directories of the configuration are anchored at the directory of the configuration file, not at whatever working
+    directory the server process happens to have: every path option is read with GlobalConfiguration.get_path (never with the raw
+    get_value), and the base directory handed to the configuration is absolute"""
+    L = 'mapproxy/config/loader.py'
+    n = 0
+    for fn in sorted(ctx.repo.fns_in(L + ':'), key=lambda f: f.qn):
+        if fn.short in ('GlobalConfiguration.get_path', 'GlobalConfiguration.get_value'):
+            continue
+        for x in fn.walk():
+            if not (isinstance(x, ast.Call) and isinstance(x.func, ast.Attribute) and x.func.attr in ('get_value', 'get_path') and x.args):
+                continue
+            key = const_value(x.args[0])
+            if not isinstance(key, str) or not (key in PATH_OPTIONS or key.endswith('_dir') or key.endswith('.directory')):
+                continue
+            n += 1
+            k = sum(1 for o in ctx.obs if o.construct.startswith('%s:path-option-%s' % (fn.short, key)))
+            ctx.check(x.func.attr == 'get_path', '%s:path-option-%s%s' % (fn.short, key, k or ''),
+                      'the path option %s is read with get_path (relative values are anchored at the configuration directory)' % key, fn, x,
+                      fail='the path option %s is read with get_value: a relative directory is used relative to the working directory of the '
+                           'process, files are created outside the configured directory' % key)
+    if n < 6:
+        raise Undecided('only %d reads of path options found in the configuration loader' % n)
+    lc = ctx.fn(L + ':load_configuration')
+    pcs = [x for x in lc.walk() if is_call(x, 'ProxyConfiguration')]
+    ok = bool(pcs)
+    for x in pcs:
+        v = keyword(x, 'conf_base_dir', 1)
+        form = lc.canon.expr(v) if v is not None else None
+        ok = ok and form is not None and is_call(form, 'os.path.abspath', 'os.path.realpath', 'abspath', 'realpath')
+    ctx.check(ok, 'load_configuration:absolute-base-dir', 'the base directory of the configuration is made absolute when the configuration is loaded', lc,
+              fail='the configuration base directory is not made absolute: with a relative configuration file name every relative cache / lock '
+                   'directory follows the working directory of the process')
+    gp = ctx.fn(L + ':GlobalConfiguration.get_path')
+    ok = any(is_call(x, 'self.abspath') for x in gp.walk())
+    ab = ctx.fn(L + ':GlobalConfiguration.abspath')
+    ok = ok and any(is_call(x, 'os.path.join') and x.args and 'conf_base_dir' in unparse(x.args[0]) for x in ab.walk())
+    ctx.check(ok, 'GlobalConfiguration.get_path:anchors', 'get_path joins the value with the configuration base directory', gp)
